@@ -108,7 +108,7 @@ func expectArg(wrap string, v rv) (rv, bool) {
 			return rNull, false
 		}
 		return rStr(v.s + "#"), true
-	case "coalesce:false":
+	case "coalesce:false", "if_null:false":
 		if v.k == 'b' && v.tv == 1 {
 			return rTrue, true
 		}
